@@ -457,19 +457,17 @@ impl Choice {
                 .and_modify(|e| *e += 1)
                 .or_insert(1);
         }
-        // Update names to make them unique
-        name_counts
-            .iter()
-            .filter(|&(_, count)| *count > 1)
-            .for_each(|(name, _)| {
-                choices
-                    .iter_mut()
-                    .filter(|c| c.name == *name)
-                    .enumerate()
-                    .for_each(|(idx, c)| {
-                        c.name.push_str(&(idx + 1).to_string());
-                    });
-            });
+        // Update names to make them unique. Iterate over the choices and use
+        // the maps only for lookups as the result must not depend on the
+        // iteration order of a hash map.
+        let mut name_ords: HashMap<String, usize> = HashMap::new();
+        for c in choices.iter_mut() {
+            if name_counts[&c.name] > 1 {
+                let ord = name_ords.entry(c.name.clone()).or_insert(0);
+                *ord += 1;
+                c.name.push_str(&ord.to_string());
+            }
+        }
     }
 }
 
